@@ -126,6 +126,7 @@ async fn run_seq<W: Write>(mut cfg: MainConfig, ops: &[&str], out: &mut W, seqno
     let mut burst: BTreeMap<usize, Vec<String>> = BTreeMap::new();
     // connections the harness does not read before the burst is over (a client that stopped reading)
     let mut muted: std::collections::BTreeSet<usize> = Default::default();
+    let mut gorder: Vec<usize> = vec![];
     for op in ops {
         let toks: Vec<&str> = op.split(' ').collect();
         match toks[0] {
@@ -181,6 +182,11 @@ async fn run_seq<W: Write>(mut cfg: MainConfig, ops: &[&str], out: &mut W, seqno
                 let ms: u64 = toks[1].parse().unwrap();
                 tokio::time::sleep(Duration::from_millis(ms)).await;
             }
+            "gorder" => {
+                // gated burst: the connections fire one after the other (in this order) while the harness
+                // holds the state write lock, so that their handlers queue on the lock in this order
+                gorder = toks[1..].iter().map(|x| x.parse().unwrap()).collect();
+            }
             "mute" => {
                 muted.insert(toks[1].parse().unwrap());
             }
@@ -210,6 +216,19 @@ async fn run_seq<W: Write>(mut cfg: MainConfig, ops: &[&str], out: &mut W, seqno
                 let d0 = ms.verif_dump().await;
                 writeln!(out, "setupstate").unwrap();
                 write!(out, "{}", d0).unwrap();
+                if !gorder.is_empty() {
+                    let guard = ms.verif_hold_state().await;
+                    for c in gorder.iter() {
+                        if let (Some(cl), Some(lines)) = (clients.get_mut(c), burst.get(c)) {
+                            let data: String = lines.iter().map(|l| format!("{}\r\n", l)).collect();
+                            cl.stream.write_all(data.as_bytes()).await.ok();
+                        }
+                        // let the connection's task read the line and park on the lock
+                        tokio::time::sleep(Duration::from_millis(25)).await;
+                    }
+                    drop(guard);
+                    burst.clear();
+                }
                 // the burst: all connections at once, each its lines back to back
                 let barrier = Arc::new(tokio::sync::Barrier::new(burst.len().max(1)));
                 let mut tasks = vec![];
